@@ -404,6 +404,58 @@ def callee_param_names(m: Model, caller: FuncInfo, call: ast.Call) -> list[str]:
     return []
 
 
+def protocol_tables(m: Model, r: Report, rid: str, module: str, tables: dict) -> int:
+    """The value tables of a transport (payload types, ack / NACK codes, control words) carry the values of the protocol specification: the transport logic
+    names the members (`TargetUnreachable` is tolerated, `Success` activates routing), so a renumbered member changes what happens on the wire while every
+    internal use stays consistent."""
+    n = 0
+    for cname, table in tables.items():
+        c = m.require_class(f"{module}.{cname}")
+        mem = m.enum_members(c)
+        if not mem:
+            raise AnalysisError(f"{c.qualname}: enum members not found")
+        n += 1
+        wrong = {k: (mem.get(k), v) for k, v in table.items() if mem.get(k) != v}
+        r.check(not wrong, rid, f"{c.qualname}#spec-values",
+                "; ".join(f"{k} = {got if got is None else hex(got)} (specification: {want:#x})" for k, (got, want) in sorted(wrong.items())[:4]), loc=c.loc)
+        dup: dict = {}
+        for k, v in mem.items():
+            dup.setdefault(v, []).append(k)
+        clash = {hex(v): ks for v, ks in dup.items() if len(ks) > 1 and isinstance(v, int)}
+        if len(set(table.values())) == len(table):  # quantities such as timing parameters may share values
+            r.check(not clash, rid, f"{c.qualname}#distinct-values", f"several names share a value (later ones become aliases): {clash}", loc=c.loc)
+    return n
+
+
+def wire_enum_coercion_total(m: Model, r: Report, rid: str, module: str, fn_names: tuple[str, ...] = ("unpack",), strict: tuple[str, ...] = ()) -> int:
+    """Decoding a frame never raises for a value the peer chose: every enum the frame decoders (unpack classmethods, the frame reader) coerce a wire
+    integer into defines `_missing_` (unknown values map to a catch-all member).  A raising coercion in the reader task ends the task and the connection."""
+    mod = m.module(module)
+    enums = {c.name: c for c in mod.classes.values() if any(m.is_enum(b) if hasattr(m, "is_enum") else "Enum" in ast.unparse(bn) for b, bn in zip([None] * len(c.node.bases), c.node.bases))} \
+        if False else {c.name: c for c in mod.classes.values() if any("Enum" in ast.unparse(bn) for bn in c.node.bases)}
+    n = 0
+    for f in m.functions():
+        if f.module.name != module or f.name not in fn_names:
+            continue
+        for call in ast.walk(f.node):
+            if isinstance(call, ast.Call) and isinstance(call.func, ast.Name) and call.func.id in enums and len(call.args) == 1:
+                n += 1
+                c = enums[call.func.id]
+                guarded = any(isinstance(t, ast.Try) and any(call is x for b_ in t.body for x in ast.walk(b_)) and
+                              any(h.type is None or any(k in ast.unparse(h.type) for k in ("ValueError", "Exception")) for h in t.handlers) for t in ast.walk(f.node))
+                msg = (f"{c.name}(<wire value>) raises ValueError for a value outside the table: a single frame with an unknown value ends the reader task and closes the connection "
+                       "(the 'unhandled' branches behind it are never reached)")
+                okc = "_missing_" in c.methods or guarded
+                if strict and not any(f.qualname.endswith(sfx) for sfx in strict):
+                    # payload decoders: values outside the specification's tables are not part of the property's frame alphabet
+                    r.ok(rid, f"{f.qualname}#coerces:{c.name}", "payload decoder")
+                    if not okc:
+                        r.advisory(rid, f"{f.qualname}#coerces:{c.name}", msg + " [payload decoder: only reachable with a code the specification reserves]", f"{f.module.relpath}:{call.lineno}")
+                    continue
+                r.check(okc, rid, f"{f.qualname}#coerces:{c.name}", msg, loc=f"{f.module.relpath}:{call.lineno}")
+    return n
+
+
 def doip_timing_units(m: Model, r: Report, rid: str) -> int:
     """ISO 13400-2 timing parameters are kept in milliseconds (TimingAndCommunicationParameters); every wait in the DoIP transport that is
     derived from one of them must be that value in seconds (member / 1000)."""
@@ -425,7 +477,9 @@ def doip_timing_units(m: Model, r: Report, rid: str) -> int:
                     continue
                 n += 1
                 v = m.try_fold(f.module, a)
-                r.check(isinstance(v, (int, float)) and abs(v - mem[used[0]] / 1000) < 1e-9, rid, f"{f.qualname}#wait:{used[0]}",
+                if not isinstance(v, (int, float)):
+                    raise AnalysisError(f"{f.qualname}: cannot evaluate the wait `{ast.unparse(a)}`")
+                r.check(abs(v - mem[used[0]] / 1000) < 1e-9, rid, f"{f.qualname}#wait:{used[0]}",
                         f"the wait `{ast.unparse(a)}` is {v} s; {used[0]} = {mem[used[0]]} ms must be waited as {mem[used[0]] / 1000} s (the timeout path "
                         "close -> BrokenPipeError is otherwise never reached in useful time)", loc=f"{f.module.relpath}:{c.lineno}")
     return n
@@ -460,6 +514,11 @@ def hsfz_ack_timeout_units(m: Model, r: Report, rid: str) -> None:
     got = num_eval(conv, {cfg_name: d_cfg})
     r.check(abs(got - d_conn) < 1e-9, rid, f"{htc.qualname}#ack-timeout-default",
             f"the default HSFZConfig.ack_timeout={d_cfg} becomes an acknowledgement wait of {got} s; the connection's own default is {d_conn} s", loc=htc.loc)
+    # the conversion is exact for every setting, not only for multiples of a second (num_eval over representative values)
+    scale = d_conn / d_cfg
+    off = [(x, num_eval(conv, {cfg_name: x})) for x in (1, 250, 500, 999, 1500, 2750) if abs(num_eval(conv, {cfg_name: x}) - x * scale) > 1e-9]
+    r.check(not off, rid, f"{htc.qualname}#ack-timeout-conversion", f"`{ast.unparse(conv)}` maps (setting, wait in s) {off[:3]}: settings that are no multiple of 1000 ms are "
+            "truncated (500 ms becomes 0 s: every write fails although the ack arrives in time)", loc=htc.loc)
     probe = m.require_function("gallia.commands.discover.hsfz.HSFZDiscoverer.probe") if "gallia.commands.discover.hsfz.HSFZDiscoverer.probe" in {f.qualname for f in m.functions()} else None
     if probe is None:
         probe = next((f for f in m.functions() if f.module.name == "gallia.commands.discover.hsfz" and f.name == "probe"), None)
